@@ -41,6 +41,11 @@ var verifTemplates = []verifTemplate{
 	{"nestedcalls", "fn add(a: int, b: int) -> int { return a + b; }\nfn twice(a: int) -> int { return add(a, a); }\nfn main() {\n  println(add(twice(A), twice(add(B, 1))));\n}\n"},
 	{"strcat", "fn main() {\n  let s = \"a\" + \"b\";\n  println(s + \"c\", s == \"ab\", s != \"ab\");\n}\n"},
 	{"breaknested", "fn main() {\n  for i in 0..3 {\n    for j in 0..3 {\n      if j == A { break; }\n      if i == B { continue; }\n      println(i, j);\n    }\n  }\n  println(\"end\");\n}\n"},
+	{"copy-into-list-literal", "fn main() {\n  let a = A;\n  let l = [a, B];\n  l[0] = C;\n  println(a, l[0]);\n  a = 7;\n  println(a, l[0]);\n}\n"},
+	{"copy-into-object-literal", "fn main() {\n  let a = A;\n  let o = new { f: a, g: B };\n  o.f = C;\n  println(a, o.f);\n  a = 7;\n  println(a, o.f);\n}\n"},
+	{"copy-into-parameter", "fn set(x: int) -> int { x = x + 5; return x; }\nfn main() {\n  let a = A;\n  println(set(a), a);\n  let f = fn(y: int) -> int { y = y * 2; y };\n  println(f(a), a);\n}\n"},
+	{"copy-out-of-function", "fn id(x: int) -> int { x }\nfn main() {\n  let a = A;\n  let l = [id(a)];\n  l[0] = C;\n  let b = id(a);\n  b += 1;\n  println(a, l[0], b);\n}\n"},
+	{"copy-out-of-container", "fn main() {\n  let l = [A, B];\n  let x = l[0];\n  x = C;\n  let o = new { f: A };\n  let y = o.f;\n  y = C;\n  for z in l { z = 0; }\n  println(l[0], l[1], o.f, x, y);\n}\n"},
 	{"listloop", "fn main() {\n  let l = [A, B, C];\n  let sum = 0;\n  for x in l { sum += x; }\n  println(sum, l);\n}\n"},
 }
 
